@@ -532,3 +532,99 @@ def _check_service_field(eng, tier, seed):
 
 
 EXTRA_CHECKS = [_check_service_field]
+
+
+# ================================================================================================ C05-4 regulated port-IDs
+PIR = "pydsdl._port_id_ranges."
+STANDARD_ROOT_NAMESPACES = ("uavcan", "cyphal")   # Specification: regulated ranges of the standard / vendor namespaces
+
+
+def IS_STANDARD_NS(ns):
+    return OR(*[EQ(STRIP(ns), x) for x in STANDARD_ROOT_NAMESPACES])
+
+
+def REGULATED(port_id, ns, service):
+    """fixed port-IDs within the regulated ranges of the root namespace"""
+    if service:
+        return ITE(IS_STANDARD_NS(ns), AND(384 <= port_id, port_id <= 511), AND(256 <= port_id, port_id <= 383))
+    return ITE(IS_STANDARD_NS(ns), AND(7168 <= port_id, port_id <= 8191), AND(6144 <= port_id, port_id <= 7167))
+
+
+@contract(PIR + "is_valid_regulated_subject_id", props=P)
+class _RegulatedSubject:
+    params = dict(regulated_id=Int, root_namespace=Str)
+    returns = Bool
+
+    def post(s):
+        return {"regulated-subject-range": IFF(s.result, REGULATED(s.regulated_id, s.root_namespace, False))}
+
+
+@contract(PIR + "is_valid_regulated_service_id", props=P)
+class _RegulatedService:
+    params = dict(regulated_id=Int, root_namespace=Str)
+    returns = Bool
+
+    def post(s):
+        return {"regulated-service-range": IFF(s.result, REGULATED(s.regulated_id, s.root_namespace, True))}
+
+
+# ================================================================================================ C05-4 _make_composite
+DSB = "pydsdl._data_schema_builder.DataSchemaBuilder"
+SMODE = "pydsdl._data_schema_builder.SerializationMode"
+DMODE = "pydsdl._data_schema_builder.DelimitedSerializationMode"
+SEALED_MODE = "pydsdl._data_schema_builder.SealedSerializationMode"
+DTB = "pydsdl._data_type_builder.DataTypeBuilder"
+
+
+@class_spec(DSB)
+class _SchemaBuilderSpec:
+    fields = dict(_serialization_mode=Opt(ObjOf(SMODE)), _is_union=Bool, _doc=Str)
+
+
+@class_spec(DMODE)
+class _DelimitedModeSpec:
+    fields = dict(extent=Int)
+
+
+inline_ok(DSB + ".union", DSB + ".serialization_mode", DSB + ".doc")
+
+
+@contract(DSB + ".attributes", props=P)
+class _SchemaAttributes:
+    """Used, not verified: the attributes collected so far (fields then constants) - statement commit protocol, C03."""
+    returns = SeqOf(ObjOf(ATTRIBUTE))
+    verify = False
+    assumed = "DataSchemaBuilder.attributes returns the collected attributes (C03); only passed on to the constructors here"
+
+
+@contract(DTB + "._make_composite", props=P)
+class _MakeComposite:
+    """exactly one of @sealed / @extent per schema: a schema without serialization mode is rejected; @extent wraps the
+    schema into a delimited type with that extent, @sealed leaves it as it is; @union selects the union type."""
+    params = dict(builder=ObjOf(DSB), name=Str, version=VersionK, deprecated=Bool, fixed_port_id=Opt(Int),
+                  source_file_path=Str, has_parent_service=Bool)
+    returns = ObjOf(COMPOSITE)
+    raises = {
+        "MissingSerializationModeError": lambda s: IS_NONE(s.builder._serialization_mode),
+        "InvalidNameError": None, "InvalidVersionError": None, "AttributeNameCollisionError": None,
+        "InvalidFixedPortIDError": None, "AggregationError": None, "MalformedUnionError": None, "InvalidExtentError": None,
+    }
+
+    def pre(s):
+        mode = s.builder._serialization_mode
+        # domain: the mode objects that the directive handlers create (SerializationMode itself is never instantiated)
+        return {"mode-is-sealed-or-delimited": OR(IS_NONE(mode), lambda: ISINST(VAL(mode), "DelimitedSerializationMode",
+                                                                                "SealedSerializationMode"))}
+
+    def post(s):
+        mode = s.builder._serialization_mode
+        delimited = AND(NOT(IS_NONE(mode)), lambda: ISINST(VAL(mode), "DelimitedSerializationMode"))
+        r = s.result
+        return {
+            "delimited-iff-extent-given": IFF(ISINST(r, "DelimitedType"), delimited),
+            "extent-is-the-given-one": IMPLIES(delimited, lambda: AS(r, DELIMITED)._extent == AS(VAL(mode), DMODE).extent),
+            # (for a delimited result the wrapped type is not visible through the contract of DelimitedType.__init__ in
+            # specs/c02.py, which does not state that `inner` is stored)
+            "union-iff-marked": IMPLIES(NOT(delimited), IFF(s.builder._is_union, ISINST(r, "UnionType"))),
+            "never-a-service": NOT(ISINST(r, "ServiceType")),
+        }
